@@ -241,6 +241,87 @@ theorem buildHist_total (c : Ch) (tm : Bool) (mn mx : Int) (pixels : List Int) (
     · have := histInc_total b b' a hl hs
       exact ⟨this.1, by rw [this.2, hc]; omega⟩
 
+/-! ### histogram contents -/
+
+theorem histInc_getD (hist h' : List Nat) (i : Int) (hl : hist.length = 256) (h : histInc hist i = .ok h') (j : Nat) :
+    0 ≤ i ∧ i < 256 ∧ h'.length = 256 ∧ h'.getD j 0 = hist.getD j 0 + (if (j : Int) = i then 1 else 0) := by
+  unfold histInc at h
+  split at h
+  · rename_i hr
+    injection h with h; subst h
+    refine ⟨hr.1, hr.2, by simp [hl], ?_⟩
+    by_cases hj : (j : Int) = i
+    · have e : i.toNat = j := by omega
+      rw [if_pos hj, e]
+      simp [List.getD_eq_getElem?_getD, show j < hist.length by omega]
+    · have e : i.toNat ≠ j := by omega
+      rw [if_neg hj]
+      simp [List.getD_eq_getElem?_getD, e]
+  · cases h
+
+theorem foldlM_inv_prefix {α β ε : Type} (step : β → α → Except ε β) (I : β → List α → Prop)
+    (hstep : ∀ b a b' pre, I b pre → step b a = .ok b' → I b' (pre ++ [a])) (l : List α) (init r : β) (pre : List α)
+    (h0 : I init pre) (h : l.foldlM step init = .ok r) : I r (pre ++ l) := by
+  induction l generalizing init pre with
+  | nil => simp only [List.foldlM_nil] at h; injection h with h; subst h; simpa using h0
+  | cons a l ih =>
+    rw [List.foldlM_cons] at h
+    cases hs : step init a with
+    | error e => rw [hs] at h; cases h
+    | ok b' =>
+      rw [hs] at h
+      have := ih b' (pre ++ [a]) (hstep init a b' pre h0 hs) h
+      simpa using this
+
+/-- the bin `otsu_impl` counts a pixel in -/
+def binOf (c : Ch) (tm : Bool) (mn mx px : Int) : Except UB Int := if c.scans then otsuIndex c tm px mn mx else .ok px
+
+/-- pixel `px` is counted in bin `j` -/
+def inBin (c : Ch) (tm : Bool) (mn mx : Int) (j : Nat) (px : Int) : Bool :=
+  match binOf c tm mn mx px with
+  | .ok i => decide (i = (j : Int))
+  | .error _ => false
+
+theorem buildHist_counts (c : Ch) (tm : Bool) (mn mx : Int) (pixels : List Int) (hist : List Nat)
+    (h : buildHist c tm mn mx pixels = .ok hist) (j : Nat) :
+    hist.getD j 0 = (pixels.filter (inBin c tm mn mx j)).length
+    ∧ ∀ px ∈ pixels, ∃ i : Int, binOf c tm mn mx px = .ok i ∧ 0 ≤ i ∧ i < 256 := by
+  unfold buildHist at h
+  have := foldlM_inv_prefix _ (fun (b : List Nat) (pre : List Int) => b.length = 256
+      ∧ b.getD j 0 = (pre.filter (inBin c tm mn mx j)).length
+      ∧ ∀ px ∈ pre, ∃ i : Int, binOf c tm mn mx px = .ok i ∧ 0 ≤ i ∧ i < 256) ?_ pixels _ hist []
+    ⟨List.length_replicate, by
+      rw [List.getD_eq_getElem?_getD, List.getElem?_replicate]; split <;> rfl, by simp⟩ h
+  · simp only [List.nil_append] at this; exact ⟨this.2.1, this.2.2⟩
+  · intro b a b' pre ⟨hl, hc, hall⟩ hs
+    have key : ∀ i : Int, binOf c tm mn mx a = .ok i → histInc b i = .ok b' →
+        b'.length = 256 ∧ b'.getD j 0 = ((pre ++ [a]).filter (inBin c tm mn mx j)).length
+        ∧ ∀ px ∈ pre ++ [a], ∃ i : Int, binOf c tm mn mx px = .ok i ∧ 0 ≤ i ∧ i < 256 := by
+      intro i hbin hinc
+      obtain ⟨h0, h1, hl', hg⟩ := histInc_getD b b' i hl hinc j
+      refine ⟨hl', ?_, ?_⟩
+      · rw [hg, hc, List.filter_append, List.length_append]
+        congr 1
+        have hin : inBin c tm mn mx j a = decide (i = (j : Int)) := by simp only [inBin, hbin]
+        simp only [List.filter_cons, List.filter_nil, hin]
+        by_cases hji : (j : Int) = i
+        · simp [hji]
+        · have : ¬ i = (j : Int) := fun e => hji e.symm
+          simp [hji, this]
+      · intro px hpx
+        rcases List.mem_append.mp hpx with hp | hp
+        · exact hall px hp
+        · simp only [List.mem_singleton] at hp; subst hp; exact ⟨i, hbin, h0, h1⟩
+    split at hs
+    · rename_i hsc
+      cases hi : otsuIndex c tm a mn mx with
+      | error e => rw [hi] at hs; cases hs
+      | ok i =>
+        rw [hi] at hs
+        exact key i (by unfold binOf; rw [if_pos hsc]; exact hi) hs
+    · rename_i hsc
+      exact key a (by unfold binOf; rw [if_neg hsc]) hs
+
 /-! ### duality of erosion and dilation under negation (complement) -/
 
 theorem maxOver_compl (K init : Int) (l : List Int) : maxOver (K - init) (l.map (fun v => K - v)) = K - minOver init l := by
